@@ -2,6 +2,7 @@
 from __future__ import annotations
 
 import ast
+import copy
 from typing import Iterator
 
 from .model import Func, Module, own_nodes, parents
@@ -493,3 +494,307 @@ def import_closure(repo, root_mod: str) -> set:
                 if t in repo.modules:
                     stack.append(t)
     return seen
+
+
+# ---------------------------------------------------------------------------
+# path evaluation of a dispatch function for one concrete subject value (R7, shape independent)
+# ---------------------------------------------------------------------------
+
+class _Subst(ast.NodeTransformer):
+    def __init__(self, env):
+        self.env = env
+
+    def visit_Name(self, node):
+        if isinstance(node.ctx, ast.Load) and node.id in self.env and self.env[node.id] is not None:
+            return copy.deepcopy(self.env[node.id])
+        return node
+
+    def visit_Lambda(self, node):
+        return node
+
+
+def _collection_literals(e, module):
+    """python set of str constants for a literal collection / frozenset(literal) / module-level name bound to one; else None"""
+    if isinstance(e, (ast.Set, ast.List, ast.Tuple)) and all(isinstance(x, ast.Constant) for x in e.elts):
+        return {x.value for x in e.elts}
+    if isinstance(e, ast.Call) and isinstance(e.func, ast.Name) and e.func.id in ('frozenset', 'set', 'tuple', 'list') and len(e.args) == 1 and not e.keywords:
+        return _collection_literals(e.args[0], module)
+    if isinstance(e, ast.Name) and module is not None:
+        vals = module.assigns.get(e.id) or []
+        if len(vals) == 1 and not module.rebinds_global(e.id):
+            return _collection_literals(vals[0], module)
+    if isinstance(e, ast.Dict) and all(isinstance(k, ast.Constant) for k in e.keys):
+        return {k.value for k in e.keys}
+    return None
+
+
+class PathResult:
+    def __init__(self):
+        self.returned = None        # ast expression with the path's assignments substituted, or None
+        self.raised = None          # ast.Raise reached
+        self.unknown = None         # node at which the path could not be decided
+        self.effects = []           # non-noise expression statements / opaque statements executed on the path
+        self.tests = []             # (test node, truth) decided on the path
+        self.fell_off = False
+        self.env_at_stop = None     # environment at the statement that contains `stop_at`
+        self.stopped = None
+        self.env = None
+
+
+class PathEval:
+    """Run the body of `fn` for one concrete string value of its dispatch subject.  Everything else stays symbolic: assignments to
+    plain names are substituted eagerly (so the returned expression is written over the parameters), tests that depend only on the
+    subject are decided, any other test stops the evaluation as unknown unless `other_tests` decides it."""
+
+    def __init__(self, fn: Func, subject_pred, value, other_tests=None, stop_at=None):
+        self.fn, self.pred, self.value, self.other = fn, subject_pred or (lambda e: False), value, other_tests
+        self.m = fn.module
+        self.env = {}
+        self.stop_at = stop_at
+        self.local_funcs = {}
+
+    # -- tests ---------------------------------------------------------------
+    def const(self, e):
+        """concrete python value of e on this path, or raise KeyError"""
+        if isinstance(e, ast.Constant):
+            return e.value
+        if self.pred(e):
+            return self.value
+        if isinstance(e, ast.Name) and e.id in self.env and self.env[e.id] is not None and not (isinstance(self.env[e.id], ast.Name) and self.env[e.id].id == e.id):
+            return self.const(self.env[e.id])
+        if isinstance(e, ast.Name):
+            vals = self.m.assigns.get(e.id) or []
+            if len(vals) == 1 and isinstance(vals[0], ast.Constant) and not self.m.rebinds_global(e.id):
+                return vals[0].value
+        coll = _collection_literals(e, self.m)
+        if coll is not None:
+            return coll
+        if isinstance(e, ast.Call) and isinstance(e.func, ast.Attribute) and not e.keywords:
+            base = self.const(e.func.value)
+            args = [self.const(a) for a in e.args]
+            if isinstance(base, str) and e.func.attr in ('find', 'startswith', 'endswith', 'lower', 'upper', 'strip', 'count', 'index', 'split', 'partition', 'rpartition', 'replace', 'rfind', 'casefold'):
+                try:
+                    return getattr(base, e.func.attr)(*args)
+                except Exception:
+                    raise KeyError(ast.unparse(e))
+        if isinstance(e, ast.Subscript):
+            base, idx = self.const(e.value), self.const(e.slice)
+            try:
+                return base[idx]
+            except Exception:
+                raise KeyError(ast.unparse(e))
+        if isinstance(e, ast.UnaryOp) and isinstance(e.op, ast.USub):
+            return -self.const(e.operand)
+        raise KeyError(ast.unparse(e))
+
+    def truth(self, t):
+        if isinstance(t, ast.BoolOp):
+            vals = [self.truth(v) for v in t.values]
+            if isinstance(t.op, ast.And):
+                return False if any(v is False for v in vals) else (None if any(v is None for v in vals) else True)
+            return True if any(v is True for v in vals) else (None if any(v is None for v in vals) else False)
+        if isinstance(t, ast.UnaryOp) and isinstance(t.op, ast.Not):
+            v = self.truth(t.operand)
+            return None if v is None else (not v)
+        if isinstance(t, ast.Compare):
+            try:
+                left = self.const(t.left)
+                res = True
+                for op, right in zip(t.ops, t.comparators):
+                    r = self.const(right)
+                    fn = {ast.Eq: lambda a, b: a == b, ast.NotEq: lambda a, b: a != b, ast.In: lambda a, b: a in b, ast.NotIn: lambda a, b: a not in b, ast.Lt: lambda a, b: a < b,
+                          ast.LtE: lambda a, b: a <= b, ast.Gt: lambda a, b: a > b, ast.GtE: lambda a, b: a >= b, ast.Is: lambda a, b: a is b, ast.IsNot: lambda a, b: a is not b}.get(type(op))
+                    if fn is None:
+                        return None
+                    res = res and bool(fn(left, r))
+                    left = r
+                return res
+            except (KeyError, TypeError):
+                pass
+        else:
+            try:
+                return bool(self.const(t))
+            except (KeyError, TypeError):
+                pass
+        if self.other is not None:
+            return self.other(t, self)
+        return None
+
+    # -- statements ----------------------------------------------------------
+    def subst(self, e):
+        return ast.fix_missing_locations(_Subst(self.env).visit(copy.deepcopy(e)))
+
+    def _append_loop(self, s: ast.For) -> bool:
+        """acc = []; for T in IT: [temps]; acc.append(E1); acc.append(E2)   ->   acc = [x for T in IT for x in (E1, E2)]
+        (a single, possibly guarded, append gives [E1 for T in IT if guard]);  `X = acc` inside the loop is the same binding after it."""
+        tnames = {x.id for x in ast.walk(s.target) if isinstance(x, ast.Name)}
+        saved = {k: self.env[k] for k in tnames if k in self.env}
+        outer = dict(self.env)
+        for k in tnames:
+            self.env.pop(k, None)
+        it = self.subst(s.iter)
+        local = {}
+        appends = []      # (acc name, expr, guard)
+        aliases = []
+
+        def sub(e):
+            return ast.fix_missing_locations(_Subst({**self.env, **local}).visit(copy.deepcopy(e)))
+
+        def walk(body, guard):
+            for b in body:
+                if is_noise_stmt(b) or isinstance(b, ast.Pass):
+                    continue
+                if isinstance(b, ast.Assign) and len(b.targets) == 1 and isinstance(b.targets[0], ast.Name):
+                    if isinstance(b.value, ast.Name) and any(a[0] == b.value.id for a in appends) and guard is None:
+                        aliases.append((b.targets[0].id, b.value.id))
+                        continue
+                    if guard is not None:
+                        return False
+                    local[b.targets[0].id] = sub(b.value)
+                    continue
+                if isinstance(b, ast.Assign) and len(b.targets) == 1 and isinstance(b.targets[0], ast.Tuple) and all(isinstance(x, ast.Name) for x in b.targets[0].elts) and guard is None:
+                    v = sub(b.value)
+                    for i, x in enumerate(b.targets[0].elts):
+                        local[x.id] = v.elts[i] if isinstance(v, ast.Tuple) and len(v.elts) == len(b.targets[0].elts) else ast.fix_missing_locations(ast.Subscript(value=copy.deepcopy(v), slice=ast.Constant(i), ctx=ast.Load()))
+                    continue
+                if isinstance(b, ast.Expr) and isinstance(b.value, ast.Call) and isinstance(b.value.func, ast.Attribute) and b.value.func.attr == 'append' and isinstance(b.value.func.value, ast.Name) and len(b.value.args) == 1:
+                    appends.append((b.value.func.value.id, sub(b.value.args[0]), guard))
+                    continue
+                if isinstance(b, ast.If) and not b.orelse and guard is None:
+                    if not walk(b.body, sub(b.test)):
+                        return False
+                    continue
+                return False
+            return True
+        ok = walk(s.body, None)
+        accs = {a[0] for a in appends}
+        if ok and len(accs) == 1:
+            acc = accs.pop()
+            cur = outer.get(acc)
+            empty = isinstance(cur, ast.List) and not cur.elts or (isinstance(cur, ast.Call) and isinstance(cur.func, ast.Name) and cur.func.id == 'list' and not cur.args)
+            guards = [a[2] for a in appends]
+            if empty and all(al[1] == acc for al in aliases):
+                tgt = copy.deepcopy(s.target)
+                if len(appends) > 1 and any(g is not None for g in guards):
+                    # some of several appends are conditional: kept as an explicit marker, no rule accepts it as a plain flat-map
+                    items = [ast.Tuple([g if g is not None else ast.Constant(True), e], ast.Load()) for _, e, g in appends]
+                    comp = ast.ListComp(elt=ast.Name('__flat', ast.Load()), generators=[ast.comprehension(target=tgt, iter=it, ifs=[], is_async=0),
+                                                                                      ast.comprehension(target=ast.Name('__flat', ast.Store()), iter=ast.Call(func=ast.Name('__guarded_items__', ast.Load()), args=items, keywords=[]), ifs=[], is_async=0)])
+                elif len(appends) == 1:
+                    comp = ast.ListComp(elt=appends[0][1], generators=[ast.comprehension(target=tgt, iter=it, ifs=[guards[0]] if guards[0] is not None else [], is_async=0)])
+                else:
+                    comp = ast.ListComp(elt=ast.Name('__flat', ast.Load()), generators=[ast.comprehension(target=tgt, iter=it, ifs=[], is_async=0),
+                                                                                      ast.comprehension(target=ast.Name('__flat', ast.Store()), iter=ast.Tuple([a[1] for a in appends], ast.Load()), ifs=[], is_async=0)])
+                self.env = outer
+                self.env[acc] = ast.fix_missing_locations(comp)
+                for al, _ in aliases:
+                    self.env[al] = self.env[acc]
+                for k in tnames:
+                    self.env[k] = None
+                return True
+        self.env = outer
+        return False
+
+    def run(self) -> PathResult:
+        self.res = PathResult()
+        self.res.env = self.env
+        done = self.block([s for s in self.fn.node.body])
+        if not done and self.res.unknown is None:
+            self.res.fell_off = True
+        return self.res
+
+    def block(self, body) -> bool:
+        """True when the path ended (return / raise / unknown)"""
+        for s in body:
+            if self.stop_at is not None and any(x is self.stop_at for x in ast.walk(s)) and not isinstance(s, (ast.With, ast.If)):
+                self.res.env_at_stop = dict(self.env)
+                self.res.stopped = s
+                return True
+            if is_noise_stmt(s) or isinstance(s, (ast.Pass, ast.Import, ast.ImportFrom, ast.Global, ast.Nonlocal)):
+                continue
+            if isinstance(s, (ast.FunctionDef, ast.AsyncFunctionDef)):
+                self.local_funcs[s.name] = s
+                self.env[s.name] = None
+                continue
+            if isinstance(s, ast.With):
+                for it in s.items:
+                    if isinstance(it.optional_vars, ast.Name):
+                        self.env[it.optional_vars.id] = self.subst(it.context_expr)
+                if self.block(s.body):
+                    return True
+                continue
+            if isinstance(s, ast.For) and not s.orelse and self._append_loop(s):
+                continue
+            if isinstance(s, ast.Return):
+                self.res.returned = self.subst(s.value) if s.value is not None else ast.Constant(None)
+                return True
+            if isinstance(s, ast.Raise):
+                self.res.raised = s
+                return True
+            if isinstance(s, ast.If):
+                v = self.truth(s.test)
+                if v is None and self.other is not None:
+                    v = self.other(s.test, self)
+                if v is None:
+                    self.res.unknown = s
+                    return True
+                self.res.tests.append((s.test, v))
+                if self.block(s.body if v else s.orelse):
+                    return True
+                continue
+            if isinstance(s, (ast.Assign, ast.AnnAssign)) and (isinstance(s, ast.AnnAssign) or len(s.targets) == 1):
+                tgt = s.target if isinstance(s, ast.AnnAssign) else s.targets[0]
+                if s.value is None:
+                    continue
+                val = self.subst(s.value)
+                if isinstance(tgt, ast.Name):
+                    self.env[tgt.id] = val
+                    continue
+                if isinstance(tgt, ast.Tuple) and all(isinstance(x, ast.Name) for x in tgt.elts):
+                    if isinstance(val, ast.Tuple) and len(val.elts) == len(tgt.elts):
+                        for x, v in zip(tgt.elts, val.elts):
+                            self.env[x.id] = v
+                    else:
+                        for i, x in enumerate(tgt.elts):
+                            self.env[x.id] = ast.fix_missing_locations(ast.Subscript(value=copy.deepcopy(val), slice=ast.Constant(i), ctx=ast.Load()))
+                    continue
+                self.res.effects.append(s)
+                continue
+            if isinstance(s, ast.AugAssign) and isinstance(s.target, ast.Name):
+                cur = self.env.get(s.target.id) or ast.Name(s.target.id, ast.Load())
+                self.env[s.target.id] = ast.fix_missing_locations(ast.BinOp(left=copy.deepcopy(cur), op=s.op, right=self.subst(s.value)))
+                continue
+            if isinstance(s, ast.Expr):
+                self.res.effects.append(s)
+                continue
+            # loops / with / try / anything else: opaque; names bound inside are unknown afterwards
+            self.res.effects.append(s)
+            for x in ast.walk(s):
+                if isinstance(x, ast.Name) and isinstance(x.ctx, ast.Store):
+                    self.env[x.id] = None
+                if isinstance(x, ast.Return):
+                    self.res.unknown = s
+                    return True
+        return False
+
+
+def run_paths(fn: Func, subject_pred, value: str, max_forks: int = 3):
+    """All paths of fn for the subject value, forking on tests that do not depend on the subject.
+    Returns [(assumptions, PathResult)], assumptions = [(test node, truth)]; None when more than max_forks tests would have to be forked."""
+    out = []
+    todo = [[]]
+    while todo:
+        assume = todo.pop()
+        if len(assume) > max_forks:
+            return None
+        table = {id(n): v for n, v in assume}
+
+        def other(t, pe, table=table):
+            return table.get(id(t))
+        res = PathEval(fn, subject_pred, value, other).run()
+        if res.unknown is not None and isinstance(res.unknown, ast.If) and id(res.unknown.test) not in table:
+            todo.append(assume + [(res.unknown.test, True)])
+            todo.append(assume + [(res.unknown.test, False)])
+            continue
+        out.append((assume, res))
+    return out
